@@ -53,12 +53,12 @@ def gen_queries(rng, spec, nq):
             q = {'k': k, 'gs': gs, 'cr': subset(rng, n)}
         elif k == 'renyi':
             q = {'k': k, 'order': rng.choice(['0', '1/2', '1', '2', '5/2', 'inf', '3', '1/10']),
-                 'X': None if rng.random() < 0.5 else subset(rng, n, allow_empty=False)}
+                 'X': None if rng.random() < 0.5 else subset(rng, n, allow_empty=True)}
         elif k == 'tsallis':
             q = {'k': k, 'order': rng.choice(['0', '1/2', '1', '2', '5/2', '3']),
-                 'X': None if rng.random() < 0.5 else subset(rng, n, allow_empty=False)}
+                 'X': None if rng.random() < 0.5 else subset(rng, n, allow_empty=True)}
         elif k == 'extropy':
-            q = {'k': k, 'X': None if rng.random() < 0.5 else subset(rng, n, allow_empty=False)}
+            q = {'k': k, 'X': None if rng.random() < 0.5 else subset(rng, n, allow_empty=True)}
         else:
             q = {'k': k, 'X': None if rng.random() < 0.4 else subset(rng, n, allow_empty=False), 'cr': subset(rng, n) if rng.random() < 0.6 else []}
         if k == 'perplexity' and q['X'] is None and q['cr']:
@@ -71,6 +71,15 @@ def gen_queries(rng, spec, nq):
 def generate(rng, tier):
     n, nq = (120, 8) if tier == 'quick' else (1200, 10)
     cases = []
+    # directed: the empty subset of variables (a constant: every entropy of it is 0), every order, indices and names
+    for _ in range(3):
+        spec = G.gen_spec(rng, nmin=2, nmax=3, allow_log=False, prob_kinds=KINDS)
+        qs = [{'k': 'renyi', 'order': o, 'X': [], 'byname': False} for o in ('0', '1/2', '1', '2', 'inf')]
+        qs += [{'k': 'tsallis', 'order': o, 'X': [], 'byname': False} for o in ('0', '1/2', '1', '2')]
+        qs += [{'k': 'extropy', 'X': [], 'byname': False}, {'k': 'entropy', 'X': [], 'byname': False}]
+        if spec['names'] is not None:
+            qs += [{'k': 'renyi', 'order': '2', 'X': [], 'byname': True}, {'k': 'tsallis', 'order': '2', 'X': [], 'byname': True}]
+        cases.append({'spec': spec, 'queries': qs})
     for _ in range(n):
         spec = G.gen_spec(rng, nmin=1, nmax=3 if tier == 'quick' else 4, allow_log=False, prob_kinds=KINDS)
         cases.append({'spec': spec, 'queries': gen_queries(rng, spec, nq)})
